@@ -208,6 +208,17 @@ def check(ctx):
     check_radius(ctx)
 
 
+def _offdiag(m):
+    """True: the mask excludes the diagonal; False: it includes it; None: not a mask over matrix positions."""
+    if m.cmp is not None and len(m.cmp) >= 3:
+        o, l, r = m.cmp[0], m.cmp[1], m.cmp[2]
+        if l is not None and r is not None and l.indexgrid is not None and r.indexgrid is not None and l.indexgrid != r.indexgrid:
+            return True if o in ('<', '>', '!=') else (False if o in ('<=', '>=') else None)
+    if m.inv_of is not None and m.inv_of.eye is not None:
+        return True if m.inv_of.eye == 0 else None
+    return None
+
+
 def check_radius(ctx):
     fi = ctx.fn(CSR)
     it = ctx.entry(CSR)
@@ -235,7 +246,20 @@ def check_radius(ctx):
                'strict upper triangle (no self distances)' if isinstance(k, int) and k >= 1 else
                'the diagonal (distance of a site to itself = 0) is included in the minimum: the radius collapses')
     if not tri:
-        ctx.ob('R4', fi, 'minimum over site pairs', None, 'pair selection idiom not recognised')
+        # on values: a boolean mask over the distance matrix built from index grids (col > row) or from the identity (~eye)
+        found = False
+        for e in uniq_events(it, {'index'}, under(CSR)):
+            items = e.get('items') or ([e['index']] if e.get('index') is not None else [])
+            if len(items) != 1 or items[0] is None:
+                continue
+            strict = _offdiag(items[0])
+            if strict is None:
+                continue
+            found = True
+            ctx.ob('R4', fi, e['node'], strict, 'pairs of different sites only (no self distances)' if strict else
+                   'the diagonal (distance of a site to itself = 0) is included in the minimum: the radius collapses')
+        if not found:
+            ctx.ob('R4', fi, 'minimum over site pairs', None, 'pair selection idiom not recognised')
     # every returned radius r satisfies 2 r <= minimum site distance: either r = c1 * min + c2 (c1 <= 1/2, c2 <= 0), or r is
     # returned under a condition that implies min >= 2 r
     cfg = ctx.cfg(CSR)
